@@ -144,7 +144,7 @@ pub fn probes(tier: &str) -> Vec<Probe> {
     let mut p = Vec::new();
     p.push(Probe::Res0);
     p.push(Probe::ShutdownHook);
-    p.push(Probe::ManyThreads(if tier == "quick" { 700 } else { 70_000 }));
+    p.push(Probe::ManyThreads(if tier == "quick" { 700 } else { 4_000 }));
     for &c in &ids {
         p.push(Probe::Resolution(c));
         p.push(Probe::Centre(c));
